@@ -68,8 +68,8 @@ CONSTANTS
   Chunk, Max, Tag, IVLen, MarkerVal,
   Encs,         \* subset of BOOLEAN
   Plans,        \* set of sequences over {"msg", "file"}
-  Sizes,        \* file sizes
-  LaterSizes,   \* sizes allowed for the 2nd, 3rd ... file of a session
+  Sizes,        \* sizes of the first file of a session
+  LaterSizes,   \* sizes of the 2nd, 3rd ... file of a session
   MsgLens,      \* lengths of ordinary messages (never 4 or 8: not mistakable for marker / size)
   MsgSplits,    \* subset of BOOLEAN: may an ordinary message travel as two frames?
   Devs,         \* deviations the peer may use
@@ -197,7 +197,7 @@ DevOK(size, dev, delta) ==
 
 PfOpen(size, dev, delta) ==
   /\ Sending /\ spc = "idle" /\ CurItem < Len(plan) /\ plan[CurItem + 1] = "file"
-  /\ NthFile > 1 => size \in LaterSizes
+  /\ IF NthFile > 1 THEN size \in LaterSizes ELSE size \in Sizes
   /\ DevOK(size, dev, delta)
   /\ dev # "none" => nFaults < MaxFaults
   /\ nFaults' = IF dev = "none" THEN nFaults ELSE nFaults + 1
@@ -262,7 +262,7 @@ CloseWire ==
 
 SenderStep ==
   /\ \/ \E n \in MsgLens, sp \in MsgSplits : SendMsg(n, sp)
-     \/ \E s \in Sizes, d \in Devs \cup {"none"}, dl \in MoreDeltas \cup FewerDeltas \cup {0} : PfOpen(s, d, dl)
+     \/ \E s \in Sizes \cup LaterSizes, d \in Devs \cup {"none"}, dl \in MoreDeltas \cup FewerDeltas \cup {0} : PfOpen(s, d, dl)
      \/ PfChunk \/ PfMarker
      \/ \E h \in CutHows : CutNext(h)
   /\ UNCHANGED <<enc, plan, phase, rcvVars>>
